@@ -163,18 +163,24 @@ def parse_sim_stream(records, frozen_keys):
     (each with 'lvl' = TLCGet("level")) into behaviours.  TLC evaluates the invariant on every initial state
     once (lvl 1) and then on the states of each simulated behaviour from lvl 2 on; the behaviour's initial state is
     the lvl-1 record that agrees with it on the frozen (never-changing) variables."""
-    inits, behs, cur = [], [], None
+    inits, behs, cur, last = [], [], None, 0
     for rec in records:
         if rec["lvl"] == 1:
             inits.append(rec)
             continue
-        if rec["lvl"] == 2:
+        if rec["lvl"] == 2 and not (cur is not None and last == 2 and rec == cur[-1]):
             init = [r for r in inits if all(r[k] == rec[k] for k in frozen_keys)]
             if len(init) != 1:
                 raise MachineryError("cannot identify the initial state of a simulated behaviour (%d candidates)" % len(init))
             cur = [init[0]]
             behs.append(cur)
-        if cur is None or rec["lvl"] != len(cur) + 1:
+            last = 1
+        if cur is not None and rec["lvl"] == last and rec == cur[-1]:
+            # TLC re-emits an unchanged state at the same level (a stuttering step - a polling action that found nothing
+            # to do, taken again - or the end of a behaviour): not a step of the behaviour
+            continue
+        if cur is None or rec["lvl"] != last + 1:
             raise MachineryError("simulation stream out of order at level %s" % rec["lvl"])
         cur.append(rec)
+        last = rec["lvl"]
     return behs
